@@ -90,6 +90,8 @@ pub struct Ctx {
     exhaustive: Option<bool>,
     harness_errors: Vec<String>,
     max_samples: usize,
+    /// upper bound on shrink steps after a failure (lower it for expensive cases)
+    pub shrink_iters: u32,
 }
 
 fn parse_known() -> Vec<KnownFinding> {
@@ -154,6 +156,7 @@ impl Ctx {
             exhaustive: None,
             harness_errors: vec![],
             max_samples: 6,
+            shrink_iters: 3000,
         }
     }
 
@@ -317,7 +320,7 @@ impl Ctx {
                     if tree.simplify() {
                         loop {
                             iters += 1;
-                            if iters > 3000 {
+                            if iters > self.shrink_iters {
                                 break;
                             }
                             let words = tree.current();
